@@ -195,6 +195,17 @@ def gen_dim_transforms(rnd, dim, opposing, axis, is_strand, rich, stale_rate, op
         t["elements"] = gen_elements(rnd, dim, stale_rate)
     if dim["type"] not in ("CA_SUBVAR", "MR_SUBVAR") and rnd.random() < 0.15 + 0.3 * rich:
         t["insertions"] = gen_insertions(rnd, dim, stale_rate)
+    derived = [e for e in dim["elements"] if e.get("derived")]
+    if dim["type"] == "MR_SUBVAR" and derived and rnd.random() < 0.6:
+        # a (complete) copy of a variable-level MR insertion with "hide": the way a client
+        # suppresses a derived sub-variable (Elements._hidden_transforms)
+        t["insertions"] = [
+            {"function": "any", "name": e["subvar_id"], "hide": rnd.choice([True, True, False]),
+             "anchor": "top", "args": [1]}
+            for e in derived if rnd.random() < 0.7
+        ] or [{"function": "any", "name": derived[0]["subvar_id"], "hide": True, "anchor": "top", "args": [1]}]
+        if rnd.random() < stale_rate:
+            t["insertions"].append({"function": "any", "name": "no such insertion", "hide": True})
     if rnd.random() < 0.3 + 0.45 * rich:
         t["order"] = gen_order(
             rnd, dim, opposing, axis, is_strand, stale_rate, gen_insertion_ids(dim, t), opp_insertion_ids
